@@ -129,15 +129,49 @@ def r3_retry_and_ack(ctx):
             else:
                 ctx.ok("C06.R7", loc(ack), f"Ack({idx}) leaves {left}")
     n = 0
-    for fi2, node, kind, det in scan().attr_sites("inflight", ("cascade.executor",)):
+    for fi2, node, kind, det in scan().attr_sites("inflight", ("cascade.executor",), owner="cascade.executor.comms.ReliableSender"):
         if kind in ("mutcall", "subdel", "del") and det in ("pop", "clear", "popitem", None):
             n += 1
             if fi2.qual != ack.qual:
                 ctx.violation("C06.R7", fi2.qual, loc(fi2, node), "writer of inflight", f"{fi2.qual} removes in-flight records outside ack()")
     ctx.floor("C06.R7.pops", n, 1)
-    for fi2, node, kind, det in scan().attr_sites("acked", ("cascade.executor",)):
+    for fi2, node, kind, det in scan().attr_sites("acked", ("cascade.executor",), owner="cascade.executor.comms.Listener"):
         if kind in ("mutcall", "subdel", "del", "aug") and det not in ("add", "update", "setdefault", None) or kind == "store" and fi2.name != "__init__":
             ctx.violation("C06.R7", fi2.qual, loc(fi2, node), "acked shrinks", f"{fi2.qual} removes/replaces entries of Listener.acked ({kind} {det}): a retry would be delivered twice")
+
+
+def r7b_acked_container_never_forgets(ctx):
+    """C06.R7 (container side): if Listener keeps its acknowledged Syns in a class of the repository (a bounded / LRU / watermark
+    structure), no method of that class may remove entries from its own storage: a Syn that was forgotten is delivered again when its
+    retry arrives (capacity constants only decide how much traffic it takes)."""
+    from ..calls import MUTATORS
+    repo = ctx.repo
+    a0 = _initial_acked(repo)
+    if not (isinstance(a0, Obj) and a0.cls in repo.classes):
+        ctx.ok("C06.R7", loc(repo.func(f"{CM}.Listener.__init__")), f"Listener.acked is a plain {type(a0).__name__}: the writer scan covers it")
+        return
+    ci = repo.classes[a0.cls]
+    shrink = {"pop", "popitem", "remove", "discard", "clear", "popleft", "difference_update", "intersection_update"}
+    bad = None
+    for mname, mfi in ci.methods.items():
+        ctx.analysed(mfi.qual)
+        for node in walk_scope(mfi.node):
+            if isinstance(node, ast.Call) and isinstance(node.func, ast.Attribute) and node.func.attr in shrink and isinstance(node.func.value, ast.Attribute) \
+                    and isinstance(node.func.value.value, ast.Name) and node.func.value.value.id == "self":
+                bad = (mfi, node, f"self.{node.func.value.attr}.{node.func.attr}(...)")
+            elif isinstance(node, ast.Delete) and any(isinstance(t, ast.Subscript) for t in node.targets):
+                bad = (mfi, node, "del self.<storage>[...]")
+            elif isinstance(node, ast.Assign) and mname != "__init__" and any(isinstance(t, ast.Attribute) and isinstance(t.value, ast.Name) and t.value.id == "self"
+                                                                              for t in node.targets):
+                bad = bad or None  # re-binding a field is judged by the history test
+        if bad:
+            break
+    if bad:
+        ctx.violation("C06.R7", bad[0].qual, loc(bad[0], bad[1]), "acknowledged Syns are never forgotten",
+                      f"Listener.acked is a {ci.name}; {bad[0].qual} removes entries from its storage ({bad[2]}): once a Syn has been evicted its retry is acknowledged "
+                      f"and delivered to the application a second time")
+    else:
+        ctx.ok("C06.R7", f"{ci.module.path}:{ci.node.lineno}", f"Listener.acked is a {ci.name} whose methods never remove entries")
 
 
 def _listener_models(frames_by_call, msgs, now=0):
@@ -325,4 +359,4 @@ def r1_receive_loops(ctx):
             ctx.undecided("C06.R1", "-", f"new owner of a ReliableSender: {o} (its receive loop is not covered)")
 
 
-RULES = [r1_receive_loops, r2_send, r3_retry_and_ack, r4_r5_listener, r6_frames]
+RULES = [r1_receive_loops, r2_send, r3_retry_and_ack, r7b_acked_container_never_forgets, r4_r5_listener, r6_frames]
